@@ -8,6 +8,8 @@ import (
 	"sync"
 
 	"github.com/MichaelMure/git-bug/commands/execenv"
+	"github.com/MichaelMure/git-bug/util/interrupt"
+	"github.com/spf13/cobra"
 )
 
 var (
@@ -36,5 +38,7 @@ func ProcessExit() (leftBackendOpen bool) {
 	if e.Repo != nil {
 		_ = e.Repo.Close() // closes the index handles only; the lock file stays as it is
 	}
+	interrupt.VerifProcessExit()
+	cobra.VerifProcessExit()
 	return leftBackendOpen
 }
